@@ -19,7 +19,7 @@ import pgen, py2coq
 
 PID = "C18"
 MODULE = "Check.C18"
-CLASS_BITS = {32: "K_parametrize_without_indirect"}
+CLASS_BITS = {}   # bit 32 (line inside a parametrize decorator without indirect) is set by the judge for information only since fix e3a98b7
 RULE = ("part 1: one evaluation = one cursor line of one document (every line is asked); part 2: one evaluation = one completion request; "
         "distinct = distinct (answer kind, document feature tags) / distinct item multisets")
 ASSUMPTIONS = ["part 1: virtual paths, one document per database", "part 2: documents sent over stdio, not on disk; no plugin-marked files (priority 2 is covered by the theorem only)"]
